@@ -431,7 +431,7 @@ pub fn over_only_catalogue() -> Vec<(&'static str, Pd)> {
 /// larger diagrams, read (as data) from the repository's link table
 pub fn big_catalogue() -> Vec<(&'static str, Pd)> {
     let mut v = Vec::new();
-    for name in ["5_1", "5_2", "L4a1", "L5a1", "6_1", "6_2", "6_3"] {
+    for name in ["5_1", "5_2", "L4a1", "L5a1", "6_1", "6_2", "6_3", "L6n1", "L7n1", "L7n2"] {
         let path = format!("/repo/yui-link/resources/links/{}.json", name);
         if let Ok(txt) = std::fs::read_to_string(&path) {
             if let Ok(val) = serde_json::from_str::<Vec<[usize; 4]>>(&txt) {
